@@ -435,6 +435,21 @@ def main(tier):
         v_ = fm.classify(f.encode())
         if v_.cls == 'VALID':
             mon.check(f.encode(), 'long-decimals', expect='VALID')
+    # SMALL amounts written in long fixed-point form (%.20f ... %.30f of a log-uniform value 1e-3 .. 1e-24: many leading zeros, the significant digits far
+    # behind the point), zero-padded integers, and both in groups: every digit written is part of the number
+    for k in range(400 if quick else 6000):
+        e1, e2, e3 = rng.sample(wl, 3)
+        val = 10.0 ** rng.uniform(-24, -3)
+        nd = rng.choice([18, 20, 22, 25, 30, 34])
+        small = ('%.' + str(nd) + 'f') % val
+        if float(small) == 0.0:
+            small = small[:-1] + rng.choice('123456789')
+        if rng.random() < 0.3:
+            small = small[1:]                       # '.000...': the form without the leading 0 is unspecified, classify decides
+        padded = '0' * rng.choice([1, 5, 16, 17, 18, 25]) + str(rng.randint(1, 99))
+        for f in (e1 + '1' + e2 + small, e1 + small + e2 + '0.5', '(' + e1 + '2' + e2 + ')' + small + e3, e1 + '(' + e2 + '2)' + small, e1 + padded + e2, '(' + e1 + e2 + '3)' + padded):
+            if fm.classify(f.encode()).cls == 'VALID':
+                mon.check(f.encode(), 'small-amounts-in-long-fixed-point', expect='VALID')
     # subscripts and TOTALS a hair away from an integer (a count that is 'cleaned up' to the integer shows only here)
     for k in range(200 if quick else 4000):
         e1, e2, e3 = rng.sample(wl, 3)
